@@ -528,6 +528,11 @@ def check_member(m, mode, acc, deep=True):
                 if tree.num_sites != len(expected[i][9]) or tree.num_mutations != nm \
                         or [mu.site for mu in tree.mutations()] != [j for j in expected[i][9] if N > 0]:
                     f("num_sites/num_mutations/mutations()")
+                # the edge recorded for a mutation is the edge above its node in THIS tree (-1 if the node is a root)
+                for mu in tree.mutations():
+                    if mu.edge != tree.edge(mu.node):
+                        f(f"mutation.edge: mutation {mu.id} on node {mu.node} has edge {mu.edge}, tree.edge gives {tree.edge(mu.node)}")
+                        break
         if count != nt:
             fail_path("trees", f"iteration yielded {count} trees expected {nt}")
         # reversed
